@@ -1,6 +1,6 @@
 """C02 / C01 / C07 — aiokafka/producer/message_accumulator.py."""
 from pyvc.contract import contract, classmodel, specfn, SPEC_TYPES
-from pyvc.ty import V, INT, BOOL, REAL, STR, NONE, EXC, BYTES, Opt, Tup, List, Set, Dict, Ref
+from pyvc.ty import V, INT, BOOL, REAL, STR, NONE, EXC, BYTES, Opt, Tup, List, Set, Dict, Ref, Opaque
 from pyvc.exec_base import Fut
 from .common import TP, tupctor
 
@@ -58,13 +58,39 @@ def batch_inv(c, ensure=True):
 
 
 # ---- BatchBuilder: the record codec behind it is under contract in C09; here only its bookkeeping
+def _append_posts(c):
+    c.ensures("offset-is-relative-position", "implies(result is not None, result.offset == old(self._relative_offset)"
+              " and self._relative_offset == old(self._relative_offset) + 1)")
+    c.ensures("refusal-counts-nothing", "implies(result is None, self._relative_offset == old(self._relative_offset))")
+    c.ensures("user-timestamp-kept", "implies(result is not None and timestamp is not None, result.timestamp == timestamp)")
+    c.ensures("closed-refuses", "implies(old(self._closed), result is None)")
+
+
 @contract(MOD + ":BatchBuilder.append", ["C02", "C01"])
+def _(c):
+    """the application's interface to a batch it builds itself: serializes with the serializers the batch was created with
+    (create_batch() passes the producer's), then appends"""
+    c.self_("BatchBuilder")
+    c.param("timestamp", Opt(INT))
+    c.param("key", Opt(Opaque("UserObject")))
+    c.param("value", Opt(Opaque("UserObject")))
+    c.param("headers", Opt(List(Tup(STR, Opt(BYTES)))), default="[]")
+    c.returns(Opt(META))
+    c.local("key_bytes", Opt(BYTES))
+    c.local("value_bytes", Opt(BYTES))
+    c.call("self._serialize", returns=Tup(Opt(BYTES), Opt(BYTES)), raises=["Exception"], note="BatchBuilder._serialize: the batch's own serializers (user code)")
+    c.modifies("self._relative_offset", "self._closed")
+    c.raises("a-serializer-failed", "Exception")
+    _append_posts(c)
+
+
+@contract(MOD + ":BatchBuilder._append_serialized", ["C02", "C01"])
 def _(c):
     c.self_("BatchBuilder")
     c.param("timestamp", Opt(INT))
-    c.param("key", Opt(BYTES))
-    c.param("value", Opt(BYTES))
-    c.param("headers", List(Tup(STR, Opt(BYTES))))
+    c.param("key_bytes", Opt(BYTES))
+    c.param("value_bytes", Opt(BYTES))
+    c.param("headers", Opt(List(Tup(STR, Opt(BYTES)))))
     c.returns(Opt(META))
     c.modifies("self._relative_offset", "self._closed")
     c.trusted("delegates to DefaultRecordBatchBuilder.append (C09); assumed: a successful append returns metadata "
@@ -122,6 +148,41 @@ def _(c):
               " self._msg_futures[j] == old(self._msg_futures)[j]))")
     c.ensures("refused-adds-nothing", "implies(result is None, self._msg_futures == old(self._msg_futures))")
     c.ensures("no-future-touched", "forall(lambda r: implies(0 < r < old(nalloc()), fut_same(r)))")
+    # C02 "that very record (same key, value and headers)": key and value arrive here as the bytes send() accepted (the
+    # producer has serialized them); they go into the batch as they are, whatever serializers the batch was created with
+    c.hook("before", "self._builder._append_serialized", [
+        ("assert", "the-bytes-send-accepted-are-appended-as-they-are", "a0 == timestamp_ms and a1 == key and a2 == value and a3 == headers"),
+    ])
+    c.replay_fn = lambda model, ob=None: {"script": _OPEN_BATCH_SCRIPT}
+
+
+# replay: a batch created the way create_batch() does (with the producer's serializer), submitted and left open; a later
+# send() to the partition, serialized by the producer, is appended to it
+_OPEN_BATCH_SCRIPT = '''
+import asyncio, logging
+logging.disable(logging.CRITICAL)
+from aiokafka.producer.message_accumulator import MessageAccumulator
+from aiokafka.record.memory_records import MemoryRecords
+from aiokafka.structs import TopicPartition
+class Cluster:
+    def leader_for_partition(self, tp): return 0
+async def main():
+    acc = MessageAccumulator(Cluster(), 1 << 16, 0, 1000)
+    ser = lambda v: ("<" + (v.decode() if isinstance(v, bytes) else str(v)) + ">").encode()
+    tp = TopicPartition("t", 0)
+    b = acc.create_builder(key_serializer=ser, value_serializer=ser)
+    b.append(timestamp=None, key="k1", value="first")
+    await acc.add_batch(b, tp, 1)
+    await acc.add_message(tp, ser("k2"), ser("second"), 1)          # what producer.send(key="k2", value="second") hands over
+    nodes, _ = acc.drain_by_nodes(ignore_nodes=[])
+    mr = MemoryRecords(bytes(nodes[0][tp].get_data_buffer()))
+    recs = [(r.key, r.value) for bt in iter(mr.next_batch, None) for r in bt]
+    want = [(b"<k1>", b"<first>"), (b"<k2>", b"<second>")]
+    return [] if recs == want else ["send() into an open batch built with create_batch(): the batch holds %r, accepted were %r" % (recs, want)]
+bad = asyncio.run(main())
+VIOLATED = bool(bad)
+DETAIL = "%r" % (bad,) if bad else "ok"
+'''
 
 
 def _done_like(c, result_expr, extra_params=()):
